@@ -1,1 +1,123 @@
--- property theorems of C20 (not built yet)
+/-
+  C20 — correlated-k reduces to cross-sections when the k-distribution is degenerate.
+  Theorems about `TaurexModel/KTau.lean` (the definitions `driver_c20` executes), over the real carrier.
+  Weights `≥ 0`, `Σ w = 1` throughout.
+-/
+import Proofs.C20
+
+namespace Taurex.C20
+open Taurex.Emission Taurex.KTau
+
+/-- Jensen: the weight-averaged exponential is at least the exponential of the weight-averaged optical depth
+    (i.e. the k-transmittance is at least the transmittance of the averaged coefficient). -/
+theorem k_jensen (taus ws : List ℝ) (hlen : taus.length = ws.length) (hw0 : ∀ w ∈ ws, 0 ≤ w) (hw : ws.sum = 1) :
+    Real.exp (-((taus.zip ws).map (fun p => p.1 * p.2)).sum) ≤ transK taus ws := by
+  rw [transK_eq]
+  have h := tangent_sum (taus.zip ws) (-((taus.zip ws).map (fun p => p.1 * p.2)).sum)
+    (fun p hp => hw0 p.2 (List.of_mem_zip hp).2)
+  rw [sum_snd_zip taus ws hlen, hw] at h
+  have e : (1 - -((taus.zip ws).map (fun p => p.1 * p.2)).sum) * 1 - ((taus.zip ws).map (fun p => p.1 * p.2)).sum = 1 := by
+    ring
+  rw [e, mul_one] at h
+  exact h
+
+example : Real.exp (-(([1, 2, 5].zip [(1/2 : ℝ), 1/3, 1/6]).map (fun p => p.1 * p.2)).sum)
+    ≤ transK [1, 2, 5] [1/2, 1/3, 1/6] :=
+  k_jensen _ _ rfl (by intro w hw; simp at hw; rcases hw with h | h | h <;> subst h <;> norm_num) (by norm_num)
+
+/-- the transmittance along a path lies in `(0, 1]` for non-negative optical depths -/
+theorem k_trans_unit (taus ws : List ℝ) (hlen : taus.length = ws.length) (hw0 : ∀ w ∈ ws, 0 ≤ w) (hw : ws.sum = 1)
+    (ht : ∀ t ∈ taus, 0 ≤ t) : 0 < transK taus ws ∧ transK taus ws ≤ 1 := by
+  constructor
+  · exact lt_of_lt_of_le (Real.exp_pos _) (k_jensen taus ws hlen hw0 hw)
+  · rw [transK_eq]
+    have := exp_le_one_sum (taus.zip ws) (fun p hp => hw0 p.2 (List.of_mem_zip hp).2)
+      (fun p hp => ht p.1 (List.of_mem_zip hp).1)
+    rw [sum_snd_zip taus ws hlen, hw] at this
+    exact this
+
+example : 0 < transK [1, 2, 5] [(1/2 : ℝ), 1/3, 1/6] ∧ transK [1, 2, 5] [(1/2 : ℝ), 1/3, 1/6] ≤ 1 :=
+  k_trans_unit _ _ rfl (by intro w hw; simp at hw; rcases hw with h | h | h <;> subst h <;> norm_num) (by norm_num)
+    (by intro t ht; simp at ht; rcases ht with h | h | h <;> subst h <;> norm_num)
+
+/-- the optical depth the k-path adds is non-negative and at most the weight-averaged optical depth -/
+theorem k_tau_bounds (taus ws : List ℝ) (hlen : taus.length = ws.length) (hw0 : ∀ w ∈ ws, 0 ≤ w) (hw : ws.sum = 1)
+    (ht : ∀ t ∈ taus, 0 ≤ t) :
+    0 ≤ ktau taus ws ∧ ktau taus ws ≤ ((taus.zip ws).map (fun p => p.1 * p.2)).sum := by
+  obtain ⟨hpos, hle⟩ := k_trans_unit taus ws hlen hw0 hw ht
+  have hj := k_jensen taus ws hlen hw0 hw
+  unfold ktau
+  simp only [log_real]
+  constructor
+  · have := Real.log_nonpos hpos.le hle
+    linarith
+  · have := Real.log_le_log (Real.exp_pos _) hj
+    rw [Real.log_exp] at this
+    linarith
+
+/-- degenerate k-distribution (all g-points carry the same optical depth): the k-path adds exactly `τ`,
+    for any weights summing to one -/
+theorem k_degenerate (taus ws : List ℝ) (τ : ℝ) (hlen : taus.length = ws.length) (hall : ∀ t ∈ taus, t = τ)
+    (hw : ws.sum = 1) : ktau taus ws = τ := by
+  unfold ktau
+  simp only [log_real]
+  rw [transK_const taus ws τ hlen hall, hw, mul_one, Real.log_exp]
+  ring
+
+example : ktau [3, 3, 3] [(1/2 : ℝ), 1/3, 1/6] = 3 :=
+  k_degenerate _ _ 3 rfl (by intro t ht; simp at ht; exact ht) (by norm_num)
+
+/-- transmission: with coefficients identical across g, `contribute_ktau` adds to `tau[l, wn]` exactly what
+    `contribute_tau` adds for the same numbers used as a cross-section -/
+theorem k_degenerate_row (sigma3 : List (List ℝ)) (sigma path dens ws : List ℝ) (n l : Nat) (acc : ℝ)
+    (hdeg : ∀ k g, g < ws.length → at3 sigma3 k g = sigma.getD k 0) (hw : ws.sum = 1) :
+    ktauRow sigma3 path dens ws n l acc = tauRowX sigma path dens n l acc := by
+  unfold ktauRow
+  rw [tauRowX_acc]
+  congr 1
+  apply k_degenerate _ _ _ (by simp) _ hw
+  intro t ht
+  simp only [List.mem_map, List.mem_range] at ht
+  obtain ⟨g, hg, rfl⟩ := ht
+  unfold tauG tauRowX
+  congr 1
+  funext a k
+  rw [hdeg (k + l) g hg]
+
+example : ktauRow [[2, 2], [3, 3]] [1, 1] [1, 1] [(1/4 : ℝ), 3/4] 2 0 0 = tauRowX [2, 3] [1, 1] [1, 1] 2 0 0 :=
+  k_degenerate_row _ _ _ _ _ 2 0 0 (by
+    intro k g hg
+    simp at hg
+    match k, g, hg with
+    | 0, 0, _ => rfl
+    | 0, 1, _ => rfl
+    | 1, 0, _ => rfl
+    | 1, 1, _ => rfl
+    | k + 2, 0, _ => simp [at3]
+    | k + 2, 1, _ => simp [at3]) (by norm_num)
+
+/-- emission: with coefficients identical across g (and weights summing to one) the k-table intensity of
+    `evaluate_emission_ktables` equals the documented (unclamped) integral of the cross-section model on the same
+    numbers, the molecular absorption entering as an ordinary `σ·dz·ρ` contribution.  Together with `C02.clamp_band`
+    this bounds the difference to the cross-section code path by the licensed `exp(-10)` band. -/
+theorem k_degenerate_emission (k : PC ℝ) (nonmol : List (Kind × List ℝ)) (sigma3 : List (List ℝ))
+    (sigma ws dz dens temps : List ℝ) (nu m : ℝ)
+    (hdeg : ∀ j g, g < ws.length → at3 sigma3 j g = sigma.getD j 0) (hw : ws.sum = 1) :
+    emissionK k nonmol sigma3 ws dz dens temps nu m
+      = intensityUncut k dz dens temps m ⟨nu, (Kind.lin, sigma) :: nonmol⟩ :=
+  emissionK_deg k nonmol sigma3 sigma ws dz dens temps nu m hdeg hw
+
+example : emissionK ⟨3, 1, 1, 1, 1, 1⟩ [(Kind.sq, [1, 1])] [[2, 2], [3, 3]] [(1/4 : ℝ), 3/4] [1, 1] [1, 2] [5, 4] 2 1
+    = intensityUncut ⟨3, 1, 1, 1, 1, 1⟩ [1, 1] [1, 2] [5, 4] 1 ⟨2, [(Kind.lin, [2, 3]), (Kind.sq, [1, 1])]⟩ :=
+  k_degenerate_emission _ _ _ _ _ _ _ _ _ _ (by
+    intro k g hg
+    simp at hg
+    match k, g, hg with
+    | 0, 0, _ => rfl
+    | 0, 1, _ => rfl
+    | 1, 0, _ => rfl
+    | 1, 1, _ => rfl
+    | k + 2, 0, _ => simp [at3]
+    | k + 2, 1, _ => simp [at3]) (by norm_num)
+
+end Taurex.C20
